@@ -26,7 +26,7 @@ let producer_of_string s =
   match String.split_on_char ':' s with
   | ["new"] -> PNew | ["new_raw"] -> PNewRaw | ["new_root"] -> PNewRoot
   | ["alloc"] -> PAlloc | ["alloc_raw"] -> PAllocRaw | ["alloc_root"] -> PAllocRoot
-  | ["copy"] -> PCopy | ["stack"] -> PStack | ["static"] -> PStatic | ["rtype"] -> PRuntimeType
+  | ["copy"] -> PCopy | ["stack"] -> PStack | ["static"] | ["static"; _] -> PStatic | ["rtype"] -> PRuntimeType
   | ["get"; c] -> PGet (cont_of_string c)
   | ["iter"; c] | ["last"; c] | ["next"; c] | ["prev"; c] -> PIter (cont_of_string c)
   | ["slice"; c] -> PSlice (cont_of_string c)
@@ -78,16 +78,17 @@ let () =
             let buf = Buffer.create 128 in
             Buffer.add_string buf (Printf.sprintf "T=%s A=%d R=%s" (string_of_tname (h_type_of o0))
               (int_of_nat o0.o_alloc) (match o0.o_reg with RNone -> "0" | _ -> "1"));
-            let dirty = ref false in
+            let prev = ref o0 in
             List.iter2 (fun op ((o', out), evs) ->
+              let o = !prev in prev := o';
               let fo = cnt (fun e -> e = FreeObj) evs and ro = cnt (fun e -> e = ReallocObj) evs in
               let fb = cnt (fun e -> match e with FreeBuf _ -> true | _ -> false) evs in
               let rb = cnt (fun e -> match e with ReallocBuf _ -> true | _ -> false) evs in
-              if fo + ro + fb + rb > 0 then dirty := true;
-              let h = (o'.o_type = o0.o_type && o'.o_alloc = o0.o_alloc && o'.o_magic = o0.o_magic) in
-              let show = (not !dirty) && (match out with ORaise _ -> true | ONa -> false | OOk -> is_deleting op || op = OpSweep) in
-              Buffer.add_string buf (Printf.sprintf " | %s fo=%d ro=%d fb=%d rb=%d i=%s%s%s" (string_of_outcome out) fo ro fb rb
-                (b2s h) (if show then b2s o'.o_body else "-") (if show then b2s o'.o_bufc else "-"))) ops steps;
+              (* flags are relative to the state before the step *)
+              let h = (o'.o_type = o.o_type && o'.o_alloc = o.o_alloc && o'.o_magic = o.o_magic) in
+              let show = (fo + ro + fb + rb = 0) && (match out with ORaise _ -> true | ONa -> false | OOk -> is_deleting op || op = OpSweep) in
+              Buffer.add_string buf (Printf.sprintf " | %s fo=%d ro=%d fb=%d rb=%d i=%s%s%s" (string_of_outcome out) fo ro fb (min rb 1)
+                (b2s h) (if show then b2s (o'.o_body = o.o_body) else "-") (if show then b2s (o'.o_bufc = o.o_bufc) else "-"))) ops steps;
             Buffer.contents buf
           end else begin
             let buf = Buffer.create 128 in
